@@ -1285,7 +1285,11 @@ cd {ROOT}
                             atticName = datetime.datetime.now().isoformat().translate(INVALID_CHAR_TRANS)+"_"+os.path.basename(scmPath)
                             stepMessage(checkoutStep, "ATTIC",
                                 "{} (move to ../attic/{})".format(scmPath, atticName), WARNING)
-                            atticPath = os.path.join(prettySrcPath, "..", "attic")
+                            # Normalize the path. If the workspace itself is
+                            # moved to the attic, "<workspace>/.." does not
+                            # resolve any more and nested SCMs would not be
+                            # found at their new location below.
+                            atticPath = os.path.normpath(os.path.join(prettySrcPath, "..", "attic"))
                             if not os.path.isdir(atticPath):
                                 os.makedirs(atticPath)
                             atticPath = os.path.join(atticPath, atticName)
